@@ -41,7 +41,8 @@ def evaluate(case):
         ev.tags.append("addr-range-observer")
     if case.get("cont") and len(case["cont"]) % 2:
         cfg["style"] = "att"
-    res = run_all_modes(jasm_io.make_doc(case["pattern"], config=cfg or None), text, macros)
+    mn_full, op_full = case.get("flags", [False, False])
+    res = run_all_modes(jasm_io.make_doc(case["pattern"], mn_full or None, op_full or None, config=cfg or None), text, macros)
     ev.subcases = 8
     kinds = {k: r[0] for k, r in res.items()}
     ev.tags = [f"feat={f}" for f in case["features"]]
